@@ -33,7 +33,7 @@ class _ScalarType(object):
             return symx.symfloat(x) if self.kind == 'f' else symx.symint(x)
         if isinstance(x, ndarray):
             return x.astype(self)
-        return {'f': float, 'i': int, 'b': bool}[self.kind](x)
+        return {'f': float, 'i': int, 'b': bool, 'u': int}[self.kind](x)
 
     def __eq__(self, o):
         try:
@@ -223,6 +223,8 @@ def arr_clip(a, lo=None, hi=None, out=None):
     kind = a.kind
     if any(symx.kind_of(b) == 'f' for b in (lo, hi) if b is not None):
         kind = 'f'
+    elif kind == 'u' and any(symx.CTX.decide(lift(b) < 0) for b in (lo, hi) if b is not None and not isinstance(b, ndarray)):
+        kind = 'f'          # a negative integer bound does not fit uint64: numpy computes in float64
     if isinstance(a, MaskedArray):
         return MaskedArray(_new([cl(v) for v in a.data.cells()], a.shape, kind), None if a._mask is None else a._mask.copy(), a._fill)
     return _new([cl(v) for v in a.cells()], a.shape, kind)
@@ -391,7 +393,7 @@ def np_concatenate(arrs, axis=0):
     parts = [a.data if isinstance(a, MaskedArray) else _as_nd(a) for a in arrs]
     idxs = []
     cells = []
-    kk = 'f' if any(p.kind == 'f' for p in parts) else parts[0].kind
+    kk = S.join_kinds(p.kind for p in parts)
     off = 0
     for p in parts:
         c = [S._cast(v, p.kind, kk) for v in p.cells()]
@@ -446,7 +448,7 @@ def _ufunc_masked(fn, name, a, b, out):
         m = _new(cells, r.shape, 'b')
     if out is None:
         return MaskedArray(r, m) if masked_ops else r
-    if r.kind == 'f' and out.kind in ('i', 'b'):
+    if r.kind == 'f' and out.kind in ('i', 'b', 'u'):
         raise S.UFuncTypeError("Cannot cast ufunc '%s' output from dtype('float64') to dtype('int64') with casting rule 'same_kind'" % name)
     if tuple(r.shape) != tuple(out.shape):
         raise ValueError("non-broadcastable output operand with shape %s doesn't match the broadcast shape %s" % (out.shape, r.shape))
@@ -486,10 +488,14 @@ def np_can_cast(from_, to, casting='safe'):
     a, b = k(from_), k(to)
     if casting in ('unsafe',):
         return True
-    order = {'b': 0, 'i': 1, 'f': 2}
+    order = {'b': 0, 'i': 1, 'u': 1, 'f': 2}
     if casting in ('safe', 'no', 'equiv'):
+        if casting == 'safe' and {a, b} == {'i', 'u'}:
+            return False        # neither int64 -> uint64 nor uint64 -> int64 is safe
         return order[a] <= order[b] if casting == 'safe' else a == b
     if casting == 'same_kind':
+        if (a, b) == ('i', 'u'):
+            return False
         return order[a] <= order[b]
     raise Inconclusive("can_cast casting=%r" % (casting,))
 
@@ -832,7 +838,8 @@ def apply():
     N.int64 = _ScalarType('int64', 'i')
     N.int32 = _ScalarType('int32', 'i')
     N.int_ = N.intp = N.int64
-    N.uint = N.uint8 = N.uint32 = N.uint64 = _ScalarType('uint64', 'i')
+    N.uint = N.uint8 = N.uint16 = N.uint32 = N.uint64 = _ScalarType('uint64', 'u')
+    N.unsignedinteger = _ScalarType('unsignedinteger', 'u')
     N.bool_ = _ScalarType('bool_', 'b')
     N.number = (int, float, SymNum)
     N.floating = _ScalarType('floating', 'f')
@@ -857,7 +864,10 @@ def apply():
     N.minimum = _binary(_CORE_MINIMUM, 'minimum')
     N.fmax, N.fmin = N.maximum, N.minimum
     N.can_cast = np_can_cast
-    N.result_type = lambda *xs: S._DType('f' if any((x.kind if hasattr(x, 'kind') else S._kind_of_dtype(x)) == 'f' for x in xs) else 'i')
+    def _result_type(*xs):
+        ks = set((x.kind if hasattr(x, 'kind') else S._kind_of_dtype(x)) for x in xs)
+        return S._DType('f' if ('f' in ks or {'i', 'u'} <= ks) else ('u' if 'u' in ks else 'i'))
+    N.result_type = _result_type
     N.less, N.less_equal = _binary(operator.lt, 'less'), _binary(operator.le, 'less_equal')
     N.greater, N.greater_equal = _binary(operator.gt, 'greater'), _binary(operator.ge, 'greater_equal')
     N.equal, N.not_equal = _binary(operator.eq, 'equal'), _binary(operator.ne, 'not_equal')
